@@ -299,10 +299,14 @@ fn case_iter(seed: u64, idx: usize, suite: &str, cache: &TableCache, out: &mut S
     }
 }
 
+fn repo_root() -> String {
+    std::env::var("SCNR_REPO").unwrap_or_else(|_| "/repo".to_string())
+}
+
 /// Loads the repository corpora (tests/data/*.json mode lists, benches/veryl_modes.json).
 fn load_corpora() -> Vec<(String, Vec<ModeSpec>)> {
     let mut files: Vec<std::path::PathBuf> = Vec::new();
-    if let Ok(rd) = std::fs::read_dir("/repo/scnr/tests/data") {
+    if let Ok(rd) = std::fs::read_dir(&format!("{}/scnr/tests/data", repo_root())) {
         for e in rd.flatten() {
             let p = e.path();
             let n = p.file_name().unwrap().to_string_lossy().to_string();
@@ -311,7 +315,7 @@ fn load_corpora() -> Vec<(String, Vec<ModeSpec>)> {
             }
         }
     }
-    files.push("/repo/scnr/benches/veryl_modes.json".into());
+    files.push(format!("{}/scnr/benches/veryl_modes.json", repo_root()).into());
     files.sort();
     let mut out = Vec::new();
     for f in files {
@@ -492,6 +496,9 @@ fn c03_case(idx: usize, spec: &[ModeSpec], cache: &TableCache, out: &mut String,
         write_dfa_lines(out, b);
         out.push_str("equivdfa\n");
         out.push_str("expect equivdfa ok\n");
+        // track A: the Lean model of the minimizer must produce exactly the logged output
+        out.push_str("minimize\n");
+        out.push_str("expect minimize same\n");
         st.count("minimizer_pairs", 1);
         st.count("states_before", a.states.len());
         st.count("states_after", b.states.len());
@@ -1668,7 +1675,7 @@ fn c17(seed: u64, n: usize, cache: &TableCache, rcache: &RefCache, out: &mut Str
         c17_case(idx, &rep_spec(big), &rep_inputs(big, &[big, big - 1, big - 65536, big + 1]), false, false, 70000, cache, rcache, out, st);
         idx += 1;
         let (ks, words) = keyword_spec(11500, 6, seed);
-        c17_case(idx, &ks, &keyword_inputs(&words, 11500, seed), false, false, 0, cache, rcache, out, st);
+        c17_case(idx, &ks, &keyword_inputs(&words, 11500, seed), false, false, 400000, cache, rcache, out, st);
         st.count("large_builds", 2);
     }
 }
